@@ -144,6 +144,21 @@ func diffRejectedCheck(id string, panicsAreViolations bool, withInvokes bool) fu
 		if f := v.First(CUnregisteredRan, CUserCodeOutsideInvoke); f != nil {
 			return failFrom(f)
 		}
+		// 2b. a value that is no function at all (or a nil function) is
+		// rejected before anything is built for it
+		for i, op := range c.Ops {
+			if op.K != OpInvoke || !(op.F == nil || op.F.NilFn) {
+				continue
+			}
+			o := tr.Ops[i]
+			if o.Class == ClOK {
+				return &Failure{"bad-invoke-accepted", fmt.Sprintf("op %d (%s): Invoke of a non-function / nil function returned nil", i, op.Short())}
+			}
+			if o.Ev1 != o.Ev0 {
+				l["nil-fn-invoke"] = true
+				return &Failure{"no-trace", fmt.Sprintf("op %d (%s): Invoke of a non-function / nil function was rejected (%v) but user code ran for it: %v", i, op.Short(), o.Err, tr.ExecutedSet(i))}
+			}
+		}
 		// 3. differential: the history without the rejected call behaves the same
 		n := 0
 		for _, r := range rej {
@@ -247,6 +262,11 @@ func init() {
 			k.PCallback = 12 // a callback-bearing function must stay unexecuted too
 			k.POpt = 30
 			k.WDecorate = 5
+			// DryRun decorators yield zero values (nil slices for groups):
+			// group decorators that replace the group without reading it,
+			// declared with another slice type than the consumers use
+			k.PNamedSlice, k.PDecoGroup, k.PDecoSelf = 20, 40, 55
+			k.PGroupRes, k.PGroupParam = 30, 30
 			return GenCase(t, scale(k, thorough))
 		},
 		Check: func(c *Case, st *Stats) *Failure {
